@@ -1564,7 +1564,9 @@ func (f *File) AddRetract(vi VersionInterval, rationale string) error {
 
 	r := &Retract{
 		VersionInterval: vi,
+		Rationale:       rationale,
 	}
+	f.Retract = append(f.Retract, r)
 	if vi.Low == vi.High {
 		r.Syntax = f.Syntax.addLine(nil, "retract", AutoQuote(vi.Low))
 	} else {
